@@ -75,6 +75,7 @@ type Oblig struct {
 	Model   map[string]string
 	SmtFile string
 	Extra   []string // extra assumptions (residual obligations of known findings)
+	Budget  int      // >0: single race with this timeout (known findings)
 	Bytes   int
 }
 
@@ -854,11 +855,35 @@ func (g *FnGen) zero(t types.Type) Val {
 		}
 		v.T = fmt.Sprintf("(mk-%s %s)", s, strings.Join(parts, " "))
 	case *types.Array:
-		v.T = fmt.Sprintf("((as const %s) %s)", s, g.zero(u.Elem()).T)
+		v.T = g.constArray(u.Elem())
 	default:
 		g.unsupported("zero value of %s", t)
 	}
 	return v
+}
+
+// constArray: an array whose every element is the zero value of el. (as const) is used only when the
+// zero value is an SMT value (cvc5 rejects uninterpreted constants there); otherwise a declared
+// array with a quantified axiom.
+func (g *FnGen) constArray(el types.Type) string {
+	s := fmt.Sprintf("(Array %s %s)", g.idx(), g.sortOf(el))
+	z := g.zero(el).T
+	isVal := true
+	for _, bad := range []string{"nil_iface", "strlit!", "f64zero", "zeroarr!"} {
+		if strings.Contains(z, bad) {
+			isVal = false
+		}
+	}
+	if isVal {
+		return fmt.Sprintf("((as const %s) %s)", s, z)
+	}
+	n := "zeroarr!" + typeKey(el)
+	if !g.declared[n] {
+		g.declared[n] = true
+		g.decls = append(g.decls, fmt.Sprintf("(declare-const %s %s)", n, s))
+		g.assume(fmt.Sprintf("(forall ((za!i %s)) (! (= (select %s za!i) %s) :pattern ((select %s za!i))))", g.idx(), n, z, n))
+	}
+	return n
 }
 
 func (g *FnGen) strLit(s string) string {
